@@ -666,6 +666,38 @@ package eval
 //@   ensures okEntity(n.lhs, env) && !okString(n.rhs, env) ==> failString(n.rhs, env, err)
 //@   ensures okEntity(n.lhs, env) && okString(n.rhs, env) ==> (err == nil && v == types.Boolean(present(env, vEntity(n.lhs, env)) && recHas(entOf(env, vEntity(n.lhs, env)).Tags, vString(n.rhs, env))))
 
+// ---- extension function table: name and arity select the evaluator and the operand order ----
+//@ spec func isExtFn(name types.Path) bool = name == "decimal" || name == "ip" || name == "datetime" || name == "duration" || name == "lessThan" || name == "lessThanOrEqual" || name == "greaterThan" || name == "greaterThanOrEqual" || name == "isIpv4" || name == "isIpv6" || name == "isLoopback" || name == "isMulticast" || name == "isInRange" || name == "toDate" || name == "toTime" || name == "toMilliseconds" || name == "toSeconds" || name == "toMinutes" || name == "toHours" || name == "toDays" || name == "offset" || name == "durationSince"
+//@ spec func extArity(name types.Path) int = (name == "lessThan" || name == "lessThanOrEqual" || name == "greaterThan" || name == "greaterThanOrEqual" || name == "isInRange" || name == "offset" || name == "durationSince") ? 2 : 1
+//@ func newExtensionEval
+//@   props C01
+//@   pure
+//@   results r
+//@   ensures (name == "decimal" && len(args) == 1) ==> ((r is *decimalLiteralEval) && r.(*decimalLiteralEval).literal == args[0])
+//@   ensures (name == "ip" && len(args) == 1) ==> ((r is *ipLiteralEval) && r.(*ipLiteralEval).literal == args[0])
+//@   ensures (name == "datetime" && len(args) == 1) ==> ((r is *datetimeLiteralEval) && r.(*datetimeLiteralEval).literal == args[0])
+//@   ensures (name == "duration" && len(args) == 1) ==> ((r is *durationLiteralEval) && r.(*durationLiteralEval).literal == args[0])
+//@   ensures (name == "lessThan" && len(args) == 2) ==> ((r is *decimalLessThanEval) && r.(*decimalLessThanEval).lhs == args[0] && r.(*decimalLessThanEval).rhs == args[1])
+//@   ensures (name == "lessThanOrEqual" && len(args) == 2) ==> ((r is *decimalLessThanOrEqualEval) && r.(*decimalLessThanOrEqualEval).lhs == args[0] && r.(*decimalLessThanOrEqualEval).rhs == args[1])
+//@   ensures (name == "greaterThan" && len(args) == 2) ==> ((r is *decimalGreaterThanEval) && r.(*decimalGreaterThanEval).lhs == args[0] && r.(*decimalGreaterThanEval).rhs == args[1])
+//@   ensures (name == "greaterThanOrEqual" && len(args) == 2) ==> ((r is *decimalGreaterThanOrEqualEval) && r.(*decimalGreaterThanOrEqualEval).lhs == args[0] && r.(*decimalGreaterThanOrEqualEval).rhs == args[1])
+//@   ensures (name == "isIpv4" && len(args) == 1) ==> ((r is *ipTestEval) && r.(*ipTestEval).object == args[0])
+//@   ensures (name == "isIpv6" && len(args) == 1) ==> ((r is *ipTestEval) && r.(*ipTestEval).object == args[0])
+//@   ensures (name == "isLoopback" && len(args) == 1) ==> ((r is *ipTestEval) && r.(*ipTestEval).object == args[0])
+//@   ensures (name == "isMulticast" && len(args) == 1) ==> ((r is *ipTestEval) && r.(*ipTestEval).object == args[0])
+//@   ensures (name == "isInRange" && len(args) == 2) ==> ((r is *ipIsInRangeEval) && r.(*ipIsInRangeEval).lhs == args[0] && r.(*ipIsInRangeEval).rhs == args[1])
+//@   ensures (name == "toDate" && len(args) == 1) ==> ((r is *toDateEval) && r.(*toDateEval).lhs == args[0])
+//@   ensures (name == "toTime" && len(args) == 1) ==> ((r is *toTimeEval) && r.(*toTimeEval).lhs == args[0])
+//@   ensures (name == "toMilliseconds" && len(args) == 1) ==> ((r is *toMillisecondsEval) && r.(*toMillisecondsEval).lhs == args[0])
+//@   ensures (name == "toSeconds" && len(args) == 1) ==> ((r is *toSecondsEval) && r.(*toSecondsEval).lhs == args[0])
+//@   ensures (name == "toMinutes" && len(args) == 1) ==> ((r is *toMinutesEval) && r.(*toMinutesEval).lhs == args[0])
+//@   ensures (name == "toHours" && len(args) == 1) ==> ((r is *toHoursEval) && r.(*toHoursEval).lhs == args[0])
+//@   ensures (name == "toDays" && len(args) == 1) ==> ((r is *toDaysEval) && r.(*toDaysEval).lhs == args[0])
+//@   ensures (name == "offset" && len(args) == 2) ==> ((r is *offsetEval) && r.(*offsetEval).lhs == args[0] && r.(*offsetEval).rhs == args[1])
+//@   ensures (name == "durationSince" && len(args) == 2) ==> ((r is *durationSinceEval) && r.(*durationSinceEval).lhs == args[0] && r.(*durationSinceEval).rhs == args[1])
+//@   ensures (isExtFn(name) && len(args) != extArity(name)) ==> ((r is *errorEval) && r.(*errorEval).err != nil && errIs(r.(*errorEval).err, errArity))
+//@   ensures (!isExtFn(name) && !(name == "__cedar::partialError" && len(args) == 1)) ==> ((r is *errorEval) && r.(*errorEval).err != nil && errIs(r.(*errorEval).err, errUnknownExtensionFunction))
+
 // ---- variables ----
 //@ func (variableEval) Eval
 //@   props C01
@@ -700,5 +732,45 @@ package eval
 //@   results v, err
 //@   ensures !okString(n.literal, env) ==> failString(n.literal, env, err)
 //@   ensures okString(n.literal, env) ==> (types.ParseIPAddr#1(vString(n.literal, env)) != nil ? err == types.ParseIPAddr#1(vString(n.literal, env)) : (err == nil && v == types.ParseIPAddr#0(vString(n.literal, env))))
+
+// ---- AST -> evaluator wiring: one evaluator per operator, operands in source order ----
+//@ func ToEval
+//@   props C01 C02
+//@   pure
+//@   results r
+//@   ensures (n is ast.NodeTypeAnd) ==> ((r is *andEval) && r.(*andEval).lhs == ToEval#0(n.(ast.NodeTypeAnd).Left) && r.(*andEval).rhs == ToEval#0(n.(ast.NodeTypeAnd).Right))
+//@   ensures (n is ast.NodeTypeOr) ==> ((r is *orEval) && r.(*orEval).lhs == ToEval#0(n.(ast.NodeTypeOr).Left) && r.(*orEval).rhs == ToEval#0(n.(ast.NodeTypeOr).Right))
+//@   ensures (n is ast.NodeTypeEquals) ==> ((r is *equalEval) && r.(*equalEval).lhs == ToEval#0(n.(ast.NodeTypeEquals).Left) && r.(*equalEval).rhs == ToEval#0(n.(ast.NodeTypeEquals).Right))
+//@   ensures (n is ast.NodeTypeNotEquals) ==> ((r is *notEqualEval) && r.(*notEqualEval).lhs == ToEval#0(n.(ast.NodeTypeNotEquals).Left) && r.(*notEqualEval).rhs == ToEval#0(n.(ast.NodeTypeNotEquals).Right))
+//@   ensures (n is ast.NodeTypeGreaterThan) ==> ((r is *comparableValueGreaterThanEval) && r.(*comparableValueGreaterThanEval).lhs == ToEval#0(n.(ast.NodeTypeGreaterThan).Left) && r.(*comparableValueGreaterThanEval).rhs == ToEval#0(n.(ast.NodeTypeGreaterThan).Right))
+//@   ensures (n is ast.NodeTypeGreaterThanOrEqual) ==> ((r is *comparableValueGreaterThanOrEqualEval) && r.(*comparableValueGreaterThanOrEqualEval).lhs == ToEval#0(n.(ast.NodeTypeGreaterThanOrEqual).Left) && r.(*comparableValueGreaterThanOrEqualEval).rhs == ToEval#0(n.(ast.NodeTypeGreaterThanOrEqual).Right))
+//@   ensures (n is ast.NodeTypeLessThan) ==> ((r is *comparableValueLessThanEval) && r.(*comparableValueLessThanEval).lhs == ToEval#0(n.(ast.NodeTypeLessThan).Left) && r.(*comparableValueLessThanEval).rhs == ToEval#0(n.(ast.NodeTypeLessThan).Right))
+//@   ensures (n is ast.NodeTypeLessThanOrEqual) ==> ((r is *comparableValueLessThanOrEqualEval) && r.(*comparableValueLessThanOrEqualEval).lhs == ToEval#0(n.(ast.NodeTypeLessThanOrEqual).Left) && r.(*comparableValueLessThanOrEqualEval).rhs == ToEval#0(n.(ast.NodeTypeLessThanOrEqual).Right))
+//@   ensures (n is ast.NodeTypeSub) ==> ((r is *subtractEval) && r.(*subtractEval).lhs == ToEval#0(n.(ast.NodeTypeSub).Left) && r.(*subtractEval).rhs == ToEval#0(n.(ast.NodeTypeSub).Right))
+//@   ensures (n is ast.NodeTypeAdd) ==> ((r is *addEval) && r.(*addEval).lhs == ToEval#0(n.(ast.NodeTypeAdd).Left) && r.(*addEval).rhs == ToEval#0(n.(ast.NodeTypeAdd).Right))
+//@   ensures (n is ast.NodeTypeMult) ==> ((r is *multiplyEval) && r.(*multiplyEval).lhs == ToEval#0(n.(ast.NodeTypeMult).Left) && r.(*multiplyEval).rhs == ToEval#0(n.(ast.NodeTypeMult).Right))
+//@   ensures (n is ast.NodeTypeContains) ==> ((r is *containsEval) && r.(*containsEval).lhs == ToEval#0(n.(ast.NodeTypeContains).Left) && r.(*containsEval).rhs == ToEval#0(n.(ast.NodeTypeContains).Right))
+//@   ensures (n is ast.NodeTypeContainsAll) ==> ((r is *containsAllEval) && r.(*containsAllEval).lhs == ToEval#0(n.(ast.NodeTypeContainsAll).Left) && r.(*containsAllEval).rhs == ToEval#0(n.(ast.NodeTypeContainsAll).Right))
+//@   ensures (n is ast.NodeTypeContainsAny) ==> ((r is *containsAnyEval) && r.(*containsAnyEval).lhs == ToEval#0(n.(ast.NodeTypeContainsAny).Left) && r.(*containsAnyEval).rhs == ToEval#0(n.(ast.NodeTypeContainsAny).Right))
+//@   ensures (n is ast.NodeTypeIn) ==> ((r is *inEval) && r.(*inEval).lhs == ToEval#0(n.(ast.NodeTypeIn).Left) && r.(*inEval).rhs == ToEval#0(n.(ast.NodeTypeIn).Right))
+//@   ensures (n is ast.NodeTypeGetTag) ==> ((r is *getTagEval) && r.(*getTagEval).lhs == ToEval#0(n.(ast.NodeTypeGetTag).Left) && r.(*getTagEval).rhs == ToEval#0(n.(ast.NodeTypeGetTag).Right))
+//@   ensures (n is ast.NodeTypeHasTag) ==> ((r is *hasTagEval) && r.(*hasTagEval).lhs == ToEval#0(n.(ast.NodeTypeHasTag).Left) && r.(*hasTagEval).rhs == ToEval#0(n.(ast.NodeTypeHasTag).Right))
+//@   ensures (n is ast.NodeTypeNegate) ==> ((r is *negateEval) && r.(*negateEval).inner == ToEval#0(n.(ast.NodeTypeNegate).Arg))
+//@   ensures (n is ast.NodeTypeNot) ==> ((r is *notEval) && r.(*notEval).inner == ToEval#0(n.(ast.NodeTypeNot).Arg))
+//@   ensures (n is ast.NodeTypeIsEmpty) ==> ((r is *isEmptyEval) && r.(*isEmptyEval).lhs == ToEval#0(n.(ast.NodeTypeIsEmpty).Arg))
+//@   ensures (n is ast.NodeTypeAccess) ==> ((r is *attributeAccessEval) && r.(*attributeAccessEval).object == ToEval#0(n.(ast.NodeTypeAccess).Arg) && r.(*attributeAccessEval).attribute == n.(ast.NodeTypeAccess).Value)
+//@   ensures (n is ast.NodeTypeHas) ==> ((r is *hasEval) && r.(*hasEval).object == ToEval#0(n.(ast.NodeTypeHas).Arg) && r.(*hasEval).attribute == n.(ast.NodeTypeHas).Value)
+//@   ensures (n is ast.NodeTypeLike) ==> ((r is *likeEval) && r.(*likeEval).lhs == ToEval#0(n.(ast.NodeTypeLike).Arg) && r.(*likeEval).pattern == n.(ast.NodeTypeLike).Value)
+//@   ensures (n is ast.NodeTypeIfThenElse) ==> ((r is *ifThenElseEval) && r.(*ifThenElseEval).ifNode == ToEval#0(n.(ast.NodeTypeIfThenElse).If) && r.(*ifThenElseEval).thenNode == ToEval#0(n.(ast.NodeTypeIfThenElse).Then) && r.(*ifThenElseEval).elseNode == ToEval#0(n.(ast.NodeTypeIfThenElse).Else))
+//@   ensures (n is ast.NodeTypeIs) ==> ((r is *isEval) && r.(*isEval).lhs == ToEval#0(n.(ast.NodeTypeIs).Left) && r.(*isEval).rhs == n.(ast.NodeTypeIs).EntityType)
+//@   ensures (n is ast.NodeTypeIsIn) ==> ((r is *isInEval) && r.(*isInEval).lhs == ToEval#0(n.(ast.NodeTypeIsIn).Left) && r.(*isInEval).is == n.(ast.NodeTypeIsIn).EntityType && r.(*isInEval).rhs == ToEval#0(n.(ast.NodeTypeIsIn).Entity))
+//@   ensures (n is ast.NodeValue) ==> ((r is *literalEval) && r.(*literalEval).value == n.(ast.NodeValue).Value)
+//@   ensures (n is ast.NodeTypeVariable && (n.(ast.NodeTypeVariable).Name == "principal" || n.(ast.NodeTypeVariable).Name == "action" || n.(ast.NodeTypeVariable).Name == "resource" || n.(ast.NodeTypeVariable).Name == "context")) ==> ((r is *variableEval) && r.(*variableEval).variableName == n.(ast.NodeTypeVariable).Name)
+//@   ensures (n is ast.NodeTypeSet) ==> ((r is *setLiteralEval) && len(r.(*setLiteralEval).elements) == len(n.(ast.NodeTypeSet).Elements) && (forall i int :: (0 <= i && i < len(n.(ast.NodeTypeSet).Elements)) ==> r.(*setLiteralEval).elements[i] == ToEval#0(n.(ast.NodeTypeSet).Elements[i])))
+//@   ensures (n is ast.NodeTypeExtensionCall) ==> (exists args []Evaler :: len(args) == len(n.(ast.NodeTypeExtensionCall).Args) && (forall i int :: (0 <= i && i < len(args)) ==> args[i] == ToEval#0(n.(ast.NodeTypeExtensionCall).Args[i])) && r == newExtensionEval#0(n.(ast.NodeTypeExtensionCall).Name, args))
+//@   loop 1
+//@     invariant len(args) == len(v.Args) && !isnil(args) && (forall j int :: (0 <= j && j < $i) ==> args[j] == ToEval#0(v.Args[j]))
+//@   loop 3
+//@     invariant len(s) == len(v.Elements) && !isnil(s) && (forall j int :: (0 <= j && j < $i) ==> s[j] == ToEval#0(v.Elements[j]))
 
 
